@@ -28,7 +28,7 @@ func run(pass *analysis.Pass) error {
 				}
 			}
 		case *dbc.AttributeDef:
-			if def.MinimumInt > def.MaximumInt || def.MinimumFloat > def.MaximumFloat {
+			if def.MinimumInt > def.MaximumInt {
 				pass.Reportf(def.Pos, "invalid interval: [%d, %d]", def.MinimumInt, def.MaximumInt)
 			}
 			if def.MinimumFloat > def.MaximumFloat {
